@@ -318,7 +318,7 @@ def run_case(ctx, case):
             ctx.notes["max_excess_over_optimum_x1e9"] = max(ctx.notes.get("max_excess_over_optimum_x1e9", 0), int(worst * 1e9))
     # (5) linearity in b and independence of columns, with the step count pinned by max_iters
     if steps >= 1 and case["via"] == "cg" and case["x0"] in ("none", "zero"):
-        cfac = complex(S.pick(P.rng_for("lin", case["seed"]), [1e-6, 3.0, 1e6])) * (np.exp(0.7j) if cplx else 1.0)
+        cfac = complex(S.pick(P.rng_for("lin", case["seed"]), [1e-6, 3.0, 1e6, 1e-24, 1e-30, 1e20])) * (np.exp(0.7j) if cplx else 1.0)
         cfac = cfac if cplx else cfac.real
         c2 = Counter()
         # pinned to the first few steps, where finite-precision CG still tracks exact arithmetic (regime R1); later
